@@ -214,6 +214,17 @@ static Verdict run(const Case& c)
             e.count("excluded_known.textbook-rt-invalid-farkas");
             return v;
          }
+         // known finding C02/rowrep-invalid-farkas: in ROW representation (chosen explicitly or by the automatic rule
+         // (n+1) * 1.2 < m+1) infeasibility detected by the entering algorithm after a bound flip returns a Farkas vector
+         // that is not a proof (seen with the default bound-flipping ratio test; the textbook case above is the same shape)
+         bool rowRep = sp.intParam(SoPlex::REPRESENTATION) == SoPlex::REPRESENTATION_ROW
+                       || (sp.intParam(SoPlex::REPRESENTATION) == SoPlex::REPRESENTATION_AUTO
+                           && (c.lp.n() + 1) * sp.realParam(SoPlex::REPRESENTATION_SWITCH) < (c.lp.m() + 1));
+         if(knownKey("rowrep-invalid-farkas") && rowRep)
+         {
+            e.count("excluded_known.rowrep-invalid-farkas");
+            return v;
+         }
          v.fail("Farkas: " + m);
          return v;
       }
